@@ -9,6 +9,7 @@ EXPLANATION = (
     "to the return passes BTree::root(). Field owners (a BTree kept in a struct, the HNSW vector and graph stores): the owning type must expose the "
     "root (a method reaching BTree::root on that field) and the engine's vector-insert path must reach IndexCatalog::update_root. "
     "Distances, ordering and exactness of search results are not decided."
+    " C31.3: every method of a cache-owning store that writes the backing store also updates or invalidates the cache."
 )
 
 BTREE = "nervusdb_storage::index::btree::BTree"
